@@ -19,3 +19,7 @@ Inductive stepk :=
 
 (* is FilePath.child(name) followed by `if child.parent() != dir: raise` before the file is used *)
 Inductive guardk := GuardParentEq | NoGuard.
+
+(* is the path that is finally used derived from the validated (normalised) FilePath child, or re-built from the raw
+   remote-supplied name (which the kernel resolves physically: "link/../x", "link/" ...) *)
+Inductive pathsrc := FromValidated | FromRawName.
